@@ -65,6 +65,8 @@ PROPS = {
                 "non-trivial = some row has a non-A/C/G/T column",
     },
     "C04": {
+        "extra_imports": ["Gofasta.Lemmas.VariantsOrder"],
+        "extra_theorems": ["Gofasta.Lemmas.VariantsOrder.variantLt_swo", "Gofasta.Lemmas.VariantsOrder.tied_variantLt", "Gofasta.Lemmas.VariantsOrder.indels_sort_eq", "Gofasta.Lemmas.VariantsOrder.specAll_no_del0", "Gofasta.Lemmas.VariantsOrder.adj_sort_eq_sort_all_iff", "Gofasta.Lemmas.VariantsOrder.model_eq", "Gofasta.Lemmas.VariantsOrder.variants_list_eq_iff", "Gofasta.Lemmas.VariantsOrder.variants_list_eq_of_nodup", "Gofasta.Lemmas.VariantsOrder.variants_list_eq", "Gofasta.Lemmas.VariantsOrder.variants_list_eq_of_le_one", "Gofasta.Lemmas.VariantsOrder.dedupAll_variants_eq", "Gofasta.Lemmas.VariantsOrder.variants_list_eq_iff_nodup", "Gofasta.Lemmas.VariantsOrder.cx_differs", "Gofasta.Lemmas.VariantsOrder.cx_ne", "Gofasta.Lemmas.VariantsOrder.cx_wellformed"],
         "cli": True,
         "streams": {"C04": (400, 6000)},
         "thorough_seeds": 3,
@@ -92,6 +94,8 @@ PROPS = {
                 "cases compare --aggregate with the model and spec, half re-derive the table from the real per-sequence output of the same input",
     },
     "C14": {
+        "extra_imports": ["Gofasta.Lemmas.RegionEquiv"],
+        "extra_theorems": ["Gofasta.Lemmas.RegionEquiv.genbank_region'", "Gofasta.Lemmas.RegionEquiv.genbank_region", "Gofasta.Lemmas.RegionEquiv.gff_region", "Gofasta.Lemmas.RegionEquiv.region_equiv", "Gofasta.Lemmas.RegionEquiv.fields_equiv", "Gofasta.Lemmas.RegionEquiv.oriented_of_asc", "Gofasta.Lemmas.RegionEquiv.faithful_long", "Gofasta.Lemmas.RegionEquiv.oriented_of_asc_faithful", "Gofasta.Lemmas.RegionEquiv.genbank_annotation", "Gofasta.Lemmas.RegionEquiv.gff_annotation", "Gofasta.Lemmas.RegionEquiv.annotation_equiv", "Gofasta.Lemmas.RegionEquiv.codes_perm", "Gofasta.Lemmas.RegionEquiv.variants_perm", "Gofasta.Lemmas.RegionEquiv.variants_equiv", "Gofasta.Lemmas.RegionEquiv.variants_equiv_asc", "Gofasta.Lemmas.RegionEquiv.both_succeed", "Gofasta.Lemmas.RegionEquiv.annotation_equal_of_sorted", "Gofasta.Lemmas.RegionEquiv.getAAsPair_congr", "Gofasta.Lemmas.RegionEquiv.aas_equiv_weak"],
         "cli": True,
         "streams": {"C14": (500, 8000)},
         "thorough_seeds": 3,
@@ -164,9 +168,10 @@ PROPS = {
     },
     "C09": {
         "cli": True,
-        "extra_imports": ["Gofasta.Lemmas.CsvRoundTrip"],
+        "extra_imports": ["Gofasta.Lemmas.CsvRoundTrip", "Gofasta.Lemmas.CsvFasta"],
         "extra_theorems": ["Gofasta.Lemmas.CsvRT.csv_roundtrip", "Gofasta.Lemmas.CsvRT.run_id_comma", "Gofasta.Lemmas.CsvRT.atoi_digitsOf",
-                           "Gofasta.Lemmas.CsvRT.ambArr_render", "Gofasta.Lemmas.CsvRT.splitB_joinB"],
+                           "Gofasta.Lemmas.CsvRT.ambArr_render", "Gofasta.Lemmas.CsvRT.splitB_joinB",
+                           "Gofasta.Lemmas.CsvFasta.pairUp_flatAmbs", "Gofasta.Lemmas.CsvFasta.lineOfRow_expected", "Gofasta.Lemmas.CsvFasta.forgetCount_eq_iff", "Gofasta.Lemmas.CsvFasta.coreFields_eq_iff", "Gofasta.Lemmas.CsvFasta.whichWay_query", "Gofasta.Lemmas.CsvFasta.topRankingQuery_core", "Gofasta.Lemmas.CsvFasta.topRankingAll_core", "Gofasta.Lemmas.CsvFasta.trRun_core", "Gofasta.Lemmas.CsvFasta.viaCsv_eq", "Gofasta.Lemmas.CsvFasta.four_routes", "Gofasta.Lemmas.CsvFasta.four_routes_all", "Gofasta.Lemmas.CsvFasta.routes_agree", "Gofasta.Lemmas.CsvFasta.dec_symOk", "Gofasta.Lemmas.CsvFasta.getLine_rowOk", "Gofasta.Lemmas.CsvFasta.four_routes_fasta"],
         "streams": {"C09": (400, 6000), "C09csv": (600, 8000)},
         "thorough_seeds": 3,
         "rule": "as C08 (1-5 queries: m > 1 in about 80% of cases; 1 case in 6 with IDs holding a double quote and/or a comma); the CSV forms are produced by the "
